@@ -422,6 +422,27 @@ class DictInterp:
             elif isinstance(s, ast.Assert):
                 if not self.truth(s.test):
                     raise Raised("assert")
+            elif isinstance(s, ast.Try):
+                try:
+                    try:
+                        self.run(s.body)
+                    except Raised as e:
+                        what = str(e)
+                        for h in s.handlers:
+                            names = [] if h.type is None else [ast.unparse(t) for t in (h.type.elts if isinstance(h.type, ast.Tuple) else [h.type])]
+                            if h.type is None or any(n in ("Exception", "BaseException") or what.startswith(n) or
+                                                     (n == "LookupError" and what.startswith(("KeyError", "IndexError"))) for n in names):
+                                if h.name:
+                                    self.env[h.name] = ("exc", what)
+                                self.run(h.body)
+                                break
+                        else:
+                            raise
+                    else:
+                        self.run(s.orelse)
+                finally:
+                    if s.finalbody:
+                        self.run(s.finalbody)
             elif isinstance(s, ast.Break):
                 raise _Break()
             elif isinstance(s, ast.Continue):
